@@ -55,12 +55,20 @@ impl RawConnector {
             scorer_builder,
         } = RawConnectorBuilder::from_readers(right_rdr, left_rdr, cost_rdr)?;
 
+        // The number of connection ids is recovered from the row length, so at least one
+        // feature template is required.
+        if feat_template_size == 0 {
+            return Err(VibratoError::invalid_format(
+                "bigram.right/left",
+                "at least one feature is required",
+            ));
+        }
+
         // Adjusts to a multiple of SIMD_SIZE for AVX2 compatibility.
         //
         // In nightly: feat_template_size = feat_template_size.next_multiple_of(SIMD_SIZE);
-        if feat_template_size != 0 {
-            feat_template_size = ((feat_template_size - 1) / SIMD_SIZE + 1) * SIMD_SIZE;
-        }
+        let num_templates = feat_template_size;
+        feat_template_size = ((feat_template_size - 1) / SIMD_SIZE + 1) * SIMD_SIZE;
 
         // Converts a vector of N vectors into a matrix of size (N+1)*M,
         // where M is the maximum length of a vector in the N vectors.
@@ -71,9 +79,10 @@ impl RawConnector {
         let mut left_feat_ids =
             vec![INVALID_FEATURE_ID; (left_feat_ids_tmp.len() + 1) * feat_template_size];
 
-        // The first row reserved for BOS/EOS is always an empty row with zero values.
-        right_feat_ids[..feat_template_size].fill(U31::default());
-        left_feat_ids[..feat_template_size].fill(U31::default());
+        // The first row reserved for BOS/EOS is the empty feature (id 0) at every template position.
+        // The padding lanes stay invalid so that they never match a listed feature pair.
+        right_feat_ids[..num_templates].fill(U31::default());
+        left_feat_ids[..num_templates].fill(U31::default());
 
         for (trg, src) in right_feat_ids[feat_template_size..]
             .chunks_mut(feat_template_size)
